@@ -632,6 +632,10 @@ def make_reward_fn(spec, domain):
             return (1.0 if i % 2 else -1.0) * r.random()
         if kind == "fewlevels":
             return r.choice([0.0, 0.25, 0.5])
+        if kind == "decimal":
+            # one-decimal rewards: sums of them depend on the order in the last bit (0.1 + 0.2 != 0.3), so cells with the same
+            # multiset of rewards end up with means, U- and B-values one ulp apart - near ties that are not ties
+            return r.choice([0.1, 0.2, 0.3, 0.3, 0.7])
         if kind == "unit":
             return r.random()
         if kind == "edge":
